@@ -535,6 +535,8 @@ def modelled_disposables(case: str) -> bool:
     """at most one raising enter script and one raising exit script per block (several failures come out of
     `Disposables` as an exception group, which is C08's subject and not an outcome of this model)"""
     blocks, _ = sp.index_program(json.loads(case)["prog"])
+    if any(i < 0 for b in blocks.values() for d in b[4] for i, _tag in d[3]):
+        return False   # a yielded iterable raising part-way: a failed enter after every disposable entered (C08 / C02)
     return all(sum(d[1] == "raise" for d in b[4]) <= 1 and sum(d[2] == "raise" for d in b[4]) <= 1 for b in blocks.values())
 
 
@@ -622,6 +624,16 @@ DIRECTED = [
             ["spawn", 2, "spawn", [["await", 3]]]]), ["await", 9]],
     # two nested async scopes, members in both, cancellation in the inner exit wait
     [_a(1, [["spawn", 1, "spawn", [["await", 5]]], _a(2, [["spawn", 2, "spawn", _SLOW]]), ["await", 4]]), ["await", 9]],
+    # scope objects constructed ahead of their `async with` (`hold`): before the enclosing scope exists and entered inside
+    # it – spawns in the enclosing body after the inner block still join the enclosing group; constructed inside a scope
+    # that has ended and entered outside any scope – a spawn afterwards is detached, never refused
+    [["hold", 2], _a(1, [["spawn", 1, "spawn", [["await", 1]]], _a(2, [["spawn", 2, "spawn", [["await", 2]]]]),
+                         ["spawn", 3, "spawn", [["await", 3]]], ["probe", 1],
+                         ["block", "upd", 3, [], [], [["spawn", 4, "spawn", [["await", 4]]]]]]), ["probe", 2], ["await", 9]],
+    [_a(1, [["hold", 2], ["probe", 1]]), _a(2, [["spawn", 1, "spawn", [["await", 1]]]]), ["spawn", 2, "spawn", [["await", 2]]],
+     ["probe", 2], ["await", 9]],
+    [_a(1, [["hold", 3], _a(2, [["spawn", 1, "spawn", [["await", 1]]]]), _a(3, [["spawn", 2, "spawn", [["await", 2]]]]),
+            ["spawn", 3, "spawn", [["await", 3]]], ["probe", 1]]), ["await", 9]],
 ]
 
 
